@@ -24,7 +24,7 @@ from vf.core import Res, HarnessError
 
 OUTERS = ['flush', 'flush', 'flush_multi', 'immediate', 'remove', 'replace',
           'clear']
-ACTIONS = ['remove_sibling', 'remove_all_siblings', 'add_new',
+ACTIONS = ['readd_self', 'remove_sibling', 'remove_all_siblings', 'add_new',
            'delete_self_imm', 'delete_self_def', 'delete_other_imm',
            'delete_other_def', 'create_other', 'clear', 'nop']
 
@@ -44,7 +44,11 @@ def gen(rng, outers=OUTERS, fault_rate=0.25):
             'outer': outer, 'actor': rng.randrange(ncomp), 'action': action,
             'fault': fault, 'custom_id': rng.random() < 0.5,
             'procs': rng.randint(0, 2), 'frames': rng.randint(2, 3),
-            'act_before_fault': fault and rng.random() < 0.5}
+            'act_before_fault': fault and rng.random() < 0.5,
+            # whether the program deletes the entity again in later frames
+            # (a deferred deletion must not need that, even when the frame
+            # that applied it failed half way)
+            'reaper': rng.random() < 0.5}
 
 
 def run(case):
@@ -129,7 +133,14 @@ def run(case):
     def act():
         a = case['action']
         res.tags['action_run'].add(f"{case['outer']}/{a}")
-        if a == 'remove_sibling':
+        if a == 'readd_self':
+            # the component attaches itself to another entity (a pickup
+            # changing hands) from inside its own on_remove
+            dest = others[0] if w.get_components(others[0]) else others[-1]
+            if w.get_components(dest):
+                owner[actor_uid] = dest
+                w.add_component(dest, actor)
+        elif a == 'remove_sibling':
             w.remove_component(E, type(siblings[0]))
         elif a == 'remove_all_siblings':
             for s in siblings:
@@ -281,7 +292,19 @@ def run(case):
                 action=case['action'])
         return res
 
-    tolerate = {actor_uid} if case['fault'] else set()
+    tolerate = set()    # also the component whose on_remove raised: it is
+    #                     detached, so it is no listener any more
+    if case['fault'] and outer in ('flush', 'flush_multi'):
+        # delete_entity made the entity stop existing at once; a frame that
+        # failed while applying the deletion does not bring it back
+        res.stats['existence_after_failed_flush_checked'] += 1
+        if w.entity_exists(E) or E in w.entities:
+            res.div(2, 'reentry-deletion-cancelled', 'the frame that was '
+                    'applying the deferred deletion failed (an on_remove '
+                    'raised once) and the entity exists again',
+                    'still not existing; the deletion is completed by a '
+                    'later frame', 'exists')
+            return res
     if not case['fault']:
         attached = sweep(2)
         if attached is None or not judge_components(2, attached):
@@ -299,7 +322,10 @@ def run(case):
     for f in range(case['frames']):
         del state['procs_run'][:]
         try:
-            if w.entity_exists(E):
+            # only a deferred deletion is still pending after a failure
+            deferred = outer in ('flush', 'flush_multi')
+            if w.entity_exists(E) and (case.get('reaper', True)
+                                       or not deferred):
                 w.delete_entity(E)
             w.process(1)
         except Exception as ex:
@@ -318,7 +344,8 @@ def run(case):
     attached = sweep(9)
     if attached is None or not judge_components(9, attached, tolerate):
         return res
-    if w.get_components(E) or w.entity_exists(E):
+    grows = case['action'] == 'add_new' and not case.get('reaper', True)
+    if (w.get_components(E) or w.entity_exists(E)) and not grows:
         res.div(9, 'reentry-entity-not-deleted', 'the entity could not be '
                 'deleted for good by later frames', [],
                 [c.uid for c in w.get_components(E)])
